@@ -262,27 +262,53 @@ func checkC12(w *World, r *Report) {
 			}
 			fromUnits[u] = div
 		}
+		// the factor applied on import for unit u: the import function is explored under "unit == u" (every comparison
+		// of the unit parameter with a constant decided), and the live result must be value x constant
 		toUnits := map[string]int64{}
 		unitP := to.Params[0]
-		for _, b := range to.Blocks {
-			i := blockIf(b)
-			if i == nil {
-				continue
-			}
-			bo, ok := i.Cond.(*ssa.BinOp)
-			if !ok || bo.Op != token.EQL || stripConv(bo.X) != ssa.Value(unitP) {
-				continue
-			}
-			u, ok := EvalString(bo.Y)
-			if !ok {
-				continue
-			}
-			t := b.Succs[0]
-			if ret, ok := t.Instrs[len(t.Instrs)-1].(*ssa.Return); ok {
-				if mul, ok := stripConv(retVals(ret)[0]).(*ssa.BinOp); ok && mul.Op == token.MUL {
+		for u := range fromUnits {
+			u := u
+			live := ReachUnder(to, func(base ssa.Value) (bool, bool) {
+				bo, ok := base.(*ssa.BinOp)
+				if !ok || (bo.Op != token.EQL && bo.Op != token.NEQ) {
+					return false, false
+				}
+				var other ssa.Value
+				switch {
+				case stripConv(bo.X) == ssa.Value(unitP):
+					other = bo.Y
+				case stripConv(bo.Y) == ssa.Value(unitP):
+					other = bo.X
+				default:
+					return false, false
+				}
+				s, ok := EvalString(other)
+				if !ok {
+					return false, false
+				}
+				return (s == u) == (bo.Op == token.EQL), true
+			})
+			for _, ret := range Returns(to) {
+				if !live.Blocks[ret.Block()] {
+					continue
+				}
+				rv := retVals(ret)
+				if len(rv) == 2 && !isNilConst(rv[1]) {
+					continue // the unknown-unit error return
+				}
+				for _, v := range live.LiveValues(rv[0]) {
+					mul, ok := stripConv(v).(*ssa.BinOp)
+					if !ok || mul.Op != token.MUL {
+						toUnits[u] = 0
+						continue
+					}
 					for _, side := range []ssa.Value{mul.X, mul.Y} {
-						if c, ok := side.(*ssa.Const); ok && c.Value != nil {
-							toUnits[u], _ = constant.Int64Val(c.Value)
+						for _, sv := range live.LiveValues(stripConv(side)) {
+							if c, ok := stripConv(sv).(*ssa.Const); ok && c.Value != nil {
+								if f, exact := constant.Int64Val(constant.ToInt(c.Value)); exact {
+									toUnits[u] = f
+								}
+							}
 						}
 					}
 				}
